@@ -82,6 +82,15 @@ func genInferFiles(r *simrt.Rand, ties bool) (files map[string]string, args []st
 		if r.P(0.3) {
 			desc = []string{"Qwertz uiop", "Unseen words only", "ZZZ"}[r.Intn(3)]
 		}
+		if r.P(0.06) {
+			// a remittance text of several hundred words the training data has never seen:
+			// every candidate's probability is astronomically small, and still one of them is the largest
+			var ws []string
+			for n := r.Range(150, 900); n > 0; n-- {
+				ws = append(ws, fmt.Sprintf("w%d", r.Intn(100000)))
+			}
+			desc = strings.Join(ws, " ")
+		}
 		fmt.Fprintf(&tg, "2021-%02d-%02d \"%s\"\n", r.Range(1, 12), r.Range(1, 28), desc)
 		nb := 1
 		if r.P(0.3) {
